@@ -430,23 +430,24 @@ type scenario struct {
 type viol struct{ Kind, Site, Detail, Sess string }
 
 type outcome struct {
-	Viols          []viol
-	Steps          int            // environment steps during the history (crash-free executions)
-	StepDesc       []string       // their descriptions
-	Keys           []string       // request keys delivered during the history
-	KeyOp          map[string]int // history operation during which each of them was transmitted
-	Crashed        bool
-	CrashDesc      string
-	CrashOp        string         // history operation in progress at the crash
-	FileWrites     map[string]int // effective (re)writes per file
-	InterimRetried bool
-	RecoveredStop  bool     // A7: the offending Stop was sent by a later process instance than the Interim
-	Unanswered     []string // "key@epoch" of requests the server received and left unanswered
-	Epochs         int      // process instances started after a crash
-	Restarts       int      // graceful restarts
-	Stream         string   // accepted records, for evidence
-	Signature      uint64
-	OpsApplied     int
+	Viols               []viol
+	Steps               int            // environment steps during the history (crash-free executions)
+	StepDesc            []string       // their descriptions
+	Keys                []string       // request keys delivered during the history
+	KeyOp               map[string]int // history operation during which each of them was transmitted
+	Crashed             bool
+	CrashDesc           string
+	CrashOp             string         // history operation in progress at the crash
+	FileWrites          map[string]int // effective (re)writes per file
+	InterimRetried      bool
+	StopPredatesInterim bool
+	RecoveredStop       bool     // A7: the offending Stop was sent by a later process instance than the Interim
+	Unanswered          []string // "key@epoch" of requests the server received and left unanswered
+	Epochs              int      // process instances started after a crash
+	Restarts            int      // graceful restarts
+	Stream              string   // accepted records, for evidence
+	Signature           uint64
+	OpsApplied          int
 }
 
 type exec struct {
@@ -764,8 +765,11 @@ func (x *exec) check(sc scenario) {
 				if q.Typ == typInterim && q.Sess == r.Sess && q.AckSeen && q.AckSeq < r.SendSeq && (r.In < q.In || r.Out < q.Out) {
 					x.out.RecoveredStop = r.Epoch > q.Epoch
 					for _, q0 := range recs {
-						if q0.N < q.N && q0.Typ == typInterim && q0.Sess == q.Sess && q0.Delivered && !q0.Accepted && q0.In == q.In && q0.Out == q.Out {
+						if q0.N < q.N && q0.Typ == typInterim && q0.Sess == q.Sess && q0.Delivered && !q0.AckSeen && q0.In == q.In && q0.Out == q.Out {
 							x.out.InterimRetried = true // the acknowledged Interim is a retransmission from the retry queue
+						}
+						if q0.Typ == typStop && q0.Sess == r.Sess && q0.Delivered && q0.SendSeq < q.SendSeq {
+							x.out.StopPredatesInterim = true // a Stop of the session had been transmitted before that Interim was
 						}
 					}
 					x.vs(r.Sess, "A7-counters-backwards", site, "%v reports in=%d out=%d, less than the acknowledged %v did (in=%d out=%d)", r, r.In, r.Out, q, q.In, q.Out)
@@ -994,7 +998,7 @@ func (d *driver) report(sc scenario, out outcome, v viol) {
 	trace = append(trace, "| accepted: "+out.Stream)
 	rv := report.Violation{Part: d.part, Kind: v.Kind, Site: v.Site, Detail: v.Detail, Config: sc.F.String(), Trace: trace,
 		Extra: map[string]any{"ops": sc.Ops, "drops": sc.F.Drops, "down": sc.F.Down, "crash_at": sc.F.Crash.At, "crash_mode": sc.F.Crash.Mode,
-			"queue_size": sc.F.QueueSize, "hold": sc.F.Hold, "release_at": sc.F.ReleaseAt, "crash_desc": out.CrashDesc, "crash_op": out.CrashOp, "sess": v.Sess, "file_writes": out.FileWrites["sessions/"+v.Sess+".json"], "recovered_stop": out.RecoveredStop, "interim_retried": out.InterimRetried, "unanswered": out.Unanswered, "crashed": out.Crashed, "epochs": out.Epochs}}
+			"queue_size": sc.F.QueueSize, "hold": sc.F.Hold, "release_at": sc.F.ReleaseAt, "crash_desc": out.CrashDesc, "crash_op": out.CrashOp, "sess": v.Sess, "file_writes": out.FileWrites["sessions/"+v.Sess+".json"], "recovered_stop": out.RecoveredStop, "interim_retried": out.InterimRetried, "stop_predates_interim": out.StopPredatesInterim, "unanswered": out.Unanswered, "crashed": out.Crashed, "epochs": out.Epochs}}
 	classify(&rv)
 	d.run.Violation(rv)
 }
@@ -1378,6 +1382,11 @@ func classify(v *report.Violation) {
 		switch {
 		case rs && writes == 1:
 			v.Class = "C08-K3-recovered-stop-from-start-time-file"
+		case func() bool { b, _ := v.Extra["stop_predates_interim"].(bool); return b }():
+			// a Stop of the session had already been transmitted (unanswered) BEFORE the Interim it falls behind
+			// was transmitted: the interim pass works on a snapshot of the session table and still sends an
+			// Interim for a session whose stop has begun
+			v.Class = "C08-K5-interim-sent-after-stop-began"
 		case rs && ir:
 			// the Interim the Stop falls behind was delivered by the retry queue; that path does not record
 			// the counters as the session's last acknowledged ones, so the stop-pending file lacks them
